@@ -82,6 +82,7 @@ def const_str(expr) -> Optional[str]:
 # hole languages (regular) per (field, conversion)
 DIGIT = rl.chars('digit', lambda ch: ch in '0123456789')
 NONNEG_INT = rl.plus(DIGIT)
+ANY_INT = rl.alt(NONNEG_INT, rl.cat(rl.lit('-'), NONNEG_INT))
 IDENT = rl.cat(rl.chars('ident-start', lambda ch: ch == '_' or (
     ch.isascii() and ch.isalpha())), rl.star(rl.chars(
         'ident-char', lambda ch: ch == '_' or (ch.isascii() and ch.isalnum()))))
@@ -90,8 +91,9 @@ STR_BODY = rl.star(rl.chars('not quote/equals',
 REPR_STR = rl.cat(rl.lit("'"), STR_BODY, rl.lit("'"))
 HOLES = {
     ('Index', 'index', -1): ('non-negative int', NONNEG_INT),
-    ('Key', 'key', 114): ('repr of a quote-free, =-free str or of a '
-                          'non-negative int', rl.alt(REPR_STR, NONNEG_INT)),
+    ('Key', 'key', 114): ('repr of a quote-free, =-free str or of an int '
+                          '(negative ones included)',
+                          rl.alt(REPR_STR, ANY_INT)),
     ('Attr', 'name', -1): ('identifier', IDENT),
     # str() / plain formatting of a key prints the raw characters
     ('Key', 'key', 115): ('str of a quote-free str or non-negative int key',
